@@ -7,7 +7,7 @@ from concurrent.futures import ThreadPoolExecutor
 sys.path.insert(0, os.path.join(os.path.dirname(os.path.abspath(__file__)), "..", "lib"))
 import vlib
 
-FAMILIES = ["ws", "inl", "ctl", "attr", "call"]
+FAMILIES = ["ws", "inl", "ctl", "attr", "call", "cf"]
 
 
 def enumerate_programs(ck, plan, seed):
@@ -50,6 +50,7 @@ def enumerate_programs(ck, plan, seed):
             seen.add(key)
             p["id"] = len(progs) + 1
             p["family"] = fam
+            p["mode"] = mode
             progs.append(p)
             n += 1
         counts["%s/%s" % (fam, mode)] = counts.get("%s/%s" % (fam, mode), 0) + n
@@ -57,17 +58,25 @@ def enumerate_programs(ck, plan, seed):
 
 
 def sample(progs, limit, seed):
+    """Seeded sample: exhaustively enumerated (bfs) groups are kept whole up to 2500 programs each, simulated groups
+    share what is left of the limit; None = everything."""
     if limit is None or len(progs) <= limit:
         return progs
     rng = random.Random(seed)
-    # stratified by family so no family is starved
     by = {}
     for p in progs:
-        by.setdefault(p["family"], []).append(p)
-    per = max(1, limit // len(by))
+        by.setdefault(p["family"] + "/" + p.get("mode", ""), []).append(p)
     out = []
-    for fam in sorted(by):
-        ps = by[fam]
+    rest = []
+    for g in sorted(by):
+        ps = by[g]
+        if g.endswith("/bfs"):
+            out += ps if len(ps) <= 2500 else rng.sample(ps, 2500)
+        else:
+            rest.append(ps)
+    left = max(0, limit - len(out))
+    per = max(50, left // max(1, len(rest)))
+    for ps in rest:
         out += ps if len(ps) <= per else rng.sample(ps, per)
     return out
 
@@ -82,5 +91,5 @@ def default_plan(tier):
     if tier == "thorough":
         return [(f, "bfs", None) for f in FAMILIES] + [("sim", "sim", 6000)]
     # quick: small exhaustive families + seeded simulation of every family
-    return [("ws", "bfs", 2), ("attr", "bfs", 1), ("inl", "bfs", 2)] + \
-           [(f, "sim", 700) for f in FAMILIES] + [("sim", "sim", 1500)]
+    return [("ws", "bfs", 2), ("attr", "bfs", 1), ("inl", "bfs", 2), ("cf", "bfs", None)] + \
+           [(f, "sim", 700) for f in FAMILIES if f != "cf"] + [("sim", "sim", 1500)]
